@@ -72,7 +72,7 @@ deriving DecidableEq, Repr
 /-- functors in the loop's pending queue -/
 inductive Task
   | sendInLoop (data : Bytes)        -- raw `this`
-  | shutdownInLoop                   -- raw `this`
+  | shutdownInLoop (holds : Bool)    -- `shutdown()` and the drain path of `handleWrite`
   | forceCloseInLoop                 -- holds a reference
   | connectDestroyed                 -- holds a reference
   | writeComplete                    -- holds a reference
@@ -85,7 +85,7 @@ deriving DecidableEq, Repr
 def Task.strong : Task → Bool
   | .connectDestroyed | .writeComplete | .highWater _ => true
   | .forceCloseInLoop => forceCloseHoldsRef
-  | .shutdownInLoop => shutdownHoldsRef
+  | .shutdownInLoop holds => holds
   | .sendInLoop _ => sendPieceHoldsRef
   | .startReadInLoop => startReadHoldsRef
   | .stopReadInLoop => stopReadHoldsRef
@@ -117,6 +117,7 @@ structure Conn where
   retrieveMax : Nat := 1 <<< 40   -- how much the message callback retrieves
   -- the loop
   pending : List Task := []
+  batch : List Task := []          -- functors swapped out by `doPendingFunctors`, not yet run
   timers : List Nat := []         -- deadlines of delayed force-closes (weak), in firing order
   now : Nat := 0
   -- ownership
@@ -222,7 +223,7 @@ def act (c : Conn) (foreign : Bool) : Act → Conn
     else c
   | .shutdown =>
     if shutdownAccepts c.st then
-      handOff { c with st := .kDisconnecting } foreign shutdownDispatch .shutdownInLoop shutdownInLoop
+      handOff { c with st := .kDisconnecting } foreign shutdownDispatch (.shutdownInLoop shutdownHoldsRef) shutdownInLoop
     else c
   | .forceClose =>
     if forceCloseAccepts c.st then
@@ -283,7 +284,10 @@ def handleRead (c : Conn) : Conn :=
 def afterDrain (c : Conn) : Conn :=
   let c1 := disableWriting c
   let c2 : Conn := if drainWC c1.hasWC then enqueue c1 .writeComplete else c1
-  if drainShutdown c2.st then shutdownInLoop c2 else c2
+  -- the deferred half-close: a direct call, or queued behind what is already pending
+  if drainShutdown c2.st then
+    handOff c2 false drainShutdownDispatch (.shutdownInLoop drainShutdownHoldsRef) shutdownInLoop
+  else c2
 
 def handleWriteRes (c : Conn) : WriteRes → Conn
   | .took (n+1) =>
@@ -296,15 +300,18 @@ def handleWrite (c : Conn) : Conn :=
     handleWriteRes (emit (popWrite c) (.sysWrite c.outBuf.length (peekWrite c))) (peekWrite c)
   else c
 
-/-- `Channel::handleEvent` for the connection's channel -/
-def guarded (f : Conn → Conn) (cond : Prop) [Decidable cond] (c : Conn) : Conn :=
-  if cond ∧ c.dead = false then f c else c
+/-- one branch of `Channel::handleEventWithGuard`: the reported condition (`rev`, from the
+poll result) and the channel's CURRENT interest (`sub`, re-tested before each callback) -/
+def guarded (f : Conn → Conn) (rev : Prop) [Decidable rev] (sub : Bool → Bool → Bool → Prop)
+    [∀ a b c, Decidable (sub a b c)] (c : Conn) : Conn :=
+  if rev ∧ sub c.ch.none c.ch.evRead c.ch.evWrite ∧ c.dead = false then f c else c
 
+/-- `Channel::handleEvent` for the connection's channel: close, (error: logged only), read, write -/
 def handleEvent (c : Conn) (revents : Nat) : Conn :=
   if !c.alive then c else   -- the tie: weak pointer no longer locks
-  guarded handleWrite (dispWrite revents)
-    (guarded handleRead (dispRead revents)
-      (guarded handleClose (dispClose revents) c))
+  guarded handleWrite (dispWrite revents) dispWriteSub
+    (guarded handleRead (dispRead revents) dispReadSub
+      (guarded handleClose (dispClose revents) dispCloseSub c))
 
 def connectEstablished (c : Conn) : Conn :=
   if c.asserts && c.st ≠ .kConnecting then emit { c with dead := true } (.abort "state_ == kConnecting")
@@ -331,7 +338,7 @@ def runTask (c : Conn) (t : Task) : Conn :=
   else
   match t with
   | .sendInLoop d => sendInLoop c d
-  | .shutdownInLoop => shutdownInLoop c
+  | .shutdownInLoop _ => shutdownInLoop c
   | .forceCloseInLoop => if forceCloseInLoopActs c.st then handleClose c else c
   | .connectDestroyed => connectDestroyed c
   | .writeComplete => callback c .wc .wc
@@ -342,15 +349,21 @@ def runTask (c : Conn) (t : Task) : Conn :=
 
 /-- the last reference goes away: `~TcpConnection`, `~Channel`, `~Socket` -/
 def maybeDestroy (c : Conn) : Conn :=
-  if c.alive && !c.owner && !c.pending.any Task.strong then
+  if c.alive && !c.owner && !(c.batch ++ c.pending).any Task.strong then
     if c.asserts && c.st ≠ .kDisconnected then emit { c with dead := true } (.abort "state_ == kDisconnected")
     else if c.asserts && c.registered then emit { c with dead := true } (.abort "!addedToLoop_")
     else emit (emit { c with alive := false } .sysClose) .destroyed
   else c
 
-def runBatch (c : Conn) : List Task → Conn
-  | [] => c
-  | t :: rest => if c.dead then c else runBatch (runTask c t) rest
+/-- the `for` loop of `doPendingFunctors` over the swapped-out functors; functors queued
+meanwhile go to `pending`, so `batch` only shrinks (`n` = its length) -/
+def runBatch : Nat → Conn → Conn
+  | 0, c => c
+  | n+1, c =>
+    if c.dead then c else
+    match c.batch with
+    | [] => c
+    | t :: rest => runBatch n (runTask { c with batch := rest } t)
 
 def fireN (c : Conn) : Nat → Conn
   | 0 => c
@@ -368,7 +381,7 @@ def dispatch (c : Conn) : Src → Conn
   | .conn r => if c.dead then c else handleEvent c r
   | .timer => if c.dead then c else fireTimers c
 
-def drainPending (c : Conn) : Conn := runBatch { c with pending := [] } c.pending
+def drainPending (c : Conn) : Conn := runBatch c.pending.length { c with pending := [], batch := c.pending }
 
 def iter (c : Conn) (active : List Src) : Conn :=
   if c.dead then c else
@@ -387,6 +400,7 @@ inductive Input
   | envWrite (r : WriteRes)
   | envRead (r : ReadRes)
   | advance (us : Nat)
+  | ownerDestroy
   | iter (active : List Src)
 deriving Repr
 
@@ -400,6 +414,10 @@ def step (c : Conn) : Input → Conn
   | .envWrite r => { c with writes := c.writes ++ [r] }
   | .envRead r => { c with reads := c.reads ++ [r] }
   | .advance us => { c with now := c.now + us }
+  -- `~TcpServer` for this connection, on the loop thread: drop the map's reference and run
+  -- `connectDestroyed` (through `runInLoop`, i.e. at once); the functor's reference goes
+  -- away when the call returns
+  | .ownerDestroy => if c.dead || !c.alive || !c.owner then c else maybeDestroy (connectDestroyed { c with owner := false })
   | .iter a => iter c a
 
 def run (c : Conn) (ins : List Input) : Conn := ins.foldl step c
